@@ -569,6 +569,9 @@ def step (st : St) (line : String) : St × String :=
             match cursorCheck c req ms with
             | none => (st, "ok")
             | some why => (st, s!"DIS cursor {why}")
+          -- observation `C14.orphan_chunk` (live queue only): the model sends messages the last of which
+          -- announces more and then counts the report as empty; the peer sees exactly those and no last one
+          else if status = "hang" && mtext = itext && (ms.getLast?.map (·.more)).getD false then (st, "ok")
           else (st, s!"DIS ok | {mtext}")
         | .error .loops => (st, "DIS loops")
         -- the device gives up: a request gets no (complete) answer, a report is not sent
